@@ -99,6 +99,35 @@ def case_lanczos(T, n, max_iters, variant=0, complex_=False, zero_at=None, tol="
     T.check("info-iterations", info.get("iterations") == k + 1, f"iterations={info.get('iterations')} columns={k}")
 
 
+def case_two_calls(T, n, max_iters, same=False):
+    """two factorisations of the same size, step count and dtype in one process (same=True: the very same operator and start vector twice); the
+    results of the FIRST call are examined only after the second call has returned (they are lazy operators: nothing may be shared with later calls)"""
+    dt = 'float64'
+    outs, params = [], []
+    for c in range(2):
+        if same and c == 1:
+            outs.append(lanczos(cola.SelfAdjoint(cola.ops.Dense(A)), v, max_iters=max_iters, tol=1e-9))
+            params.append((Q, Tm, A))
+            break
+        Q = K.basis(T, n, c, False, dt)
+        pf = "" if c == 0 else "b"
+        al = [T.var(f"{pf}al{i}") for i in range(n)]
+        be = [T.var(f"{pf}be{i}", positive=True) for i in range(n - 1)]
+        s = T.var(f"{pf}s", positive=True)
+        for j in range(n - 1):
+            T.assume(be[j] >= 1e-2)
+            T.assume(be[j] <= 1e2)
+        Tm = K.tridiag(T, al, be, n, dt)
+        A = Q @ Tm @ Q.T
+        v = s * Q[:, 0]
+        outs.append(lanczos(cola.SelfAdjoint(cola.ops.Dense(A)), v, max_iters=max_iters, tol=1e-9))
+        params.append((Q, Tm, A))
+    for c in (0, 1):
+        Qc, Tc, info = outs[c]
+        Q, Tm, A = params[c]
+        _check_factorisation(T, f"call {c + 1} (examined after both calls)", Qc.to_dense(), Tc.to_dense(), Q, Tm, A, n, max_iters, None)
+
+
 def case_eigs(T, n, max_iters, variant=0, zero_all=False):
     """lanczos_eigs: Ritz pairs in ascending order.  n = 2 with symbolic T = P diag(w) P^T, or diagonal T (all beta = 0 is not
     reachable from a generic start vector, so: start vector = eigenvector, Krylov dimension 1)"""
@@ -267,6 +296,9 @@ def cases(tier, seed):
                     continue
                 out.append((f"real:n{n}v{variant}m{m}", case_lanczos, dict(n=n, max_iters=m, variant=variant)))
         out.append((f"tol0:n{n}m{n + 3}", case_lanczos, dict(n=n, max_iters=n + 3, tol=0.0)))
+        out.append((f"two-calls:n{n}m{n}", case_two_calls, dict(n=n, max_iters=n), dict(partial_ok=True)))
+        out.append((f"two-calls:n{n}m{n - 1}", case_two_calls, dict(n=n, max_iters=n - 1), dict(partial_ok=True)))
+        out.append((f"two-calls-same:n{n}m{n}", case_two_calls, dict(n=n, max_iters=n, same=True), dict(partial_ok=True)))
         for m in (n, n + 2):
             out.append((f"fixedtol:n{n}m{m}", case_lanczos, dict(n=n, max_iters=m, tol=1e-7)))
             out.append((f"class:n{n}m{m}", case_lanczos, dict(n=n, max_iters=m, tol=1e-7, via="class")))
